@@ -1,12 +1,13 @@
 import json, os, vlib
 
 THEOREMS = ["Folang.Props.C08." + t for t in """group_bin_tighter climb_spec climb_eq_group group_flatten insert_canon
-group_canon table_is_published fact_precedenceUses ranks_positive climb_fuel tokSim exprP_eq_group""".split()]
+group_canon table_is_published fact_precedenceUses ranks_positive climb_fuel tokSim exprP_eq_group group_of_canon canon_ops_ge""".split()] + \
+    ["Folang.Props.C08R.tokSimR", "Folang.Props.C08R.exprP_eq_groupR", "Folang.Props.C08T.pTerm_reads", "Folang.Props.C08T.reads_all", "Folang.Props.C08T.expr_roundtrip", "Folang.Props.C08T.sampleOT_wf"]
 
 ASSUMPTIONS = [
     "model: parseExprWithPrec/parseBinAfter as precedence climbing over a chain of opaque operands (climb) and, for the oracle, over tokens with psSkipEOL (exprP/binAfter) plus a concrete term parser for names, applications, not and parentheses",
     "specification: insertion of each operator into the right spine (group), validated by group_flatten and group_canon",
-    "token level (Props/C08Tok.lean): exprP_eq_group — for ANY term parser that reads the tokens of every operand, the model of parseExprWithPrec/parseBinAfter WITH their psSkipEOL calls, on an operand followed by an operator chain with any number of ends of line before each operator, returns the reference grouping and consumes everything up to what follows the chain (tokSim: it equals the chain-level function climb for every minPrec, and the state it returns when it stops at a looser operator is the one after psSkipEOL, as in the code). The concrete term parser of the oracle (names, applications, not, parentheses) is tied by the c08.chain stream",
+    "token level (Props/C08Tok.lean): exprP_eq_group — for ANY term parser that reads the tokens of every operand, the model of parseExprWithPrec/parseBinAfter WITH their psSkipEOL calls, on an operand followed by an operator chain with any number of ends of line before each operator, returns the reference grouping and consumes everything up to what follows the chain (tokSim: it equals the chain-level function climb for every minPrec, and the state it returns when it stops at a looser operator is the one after psSkipEOL, as in the code). The concrete term parser the oracle runs (Model/TermParser.lean: names, applications, not, parentheses) is PROVED to read back every well-formed operand, to any nesting depth (pTerm_reads), so expr_roundtrip gives the reference grouping for the whole expression parser of the fragment (group_of_canon: a canonical tree is the grouping of its own chain); it is tied to the real parseTerm / parseAtomList / parseAtom by the c08.chain stream",
     "tie: regenerated binOpMap and uses of Precedence in gen_parser.go (go/ast); c08.chain stream: source text -> real parser + emitter -> grouping read back from the emitted Go with go/parser vs the model",
 ]
 
@@ -18,10 +19,10 @@ def run(ctx):
     fcdrv = ctx.build_fcdrv()
     ctx.assumptions += ASSUMPTIONS
     ctx.partial.append("token-level refinement (exprP = climb on rendered chains) is executed, not proved")
-    ctx.lake_build(["Folang.Props.C08", "Folang.Props.C08Facts", "Folang.Props.C08Tok"])
-    ctx.audit(THEOREMS, ["Folang.Props.C08", "Folang.Props.C08Facts", "Folang.Props.C08Tok"])
+    ctx.lake_build(["Folang.Props.C08", "Folang.Props.C08Facts", "Folang.Props.C08Tok", "Folang.Props.C08R", "Folang.Props.C08Term"])
+    ctx.audit(THEOREMS, ["Folang.Props.C08", "Folang.Props.C08Facts", "Folang.Props.C08Tok", "Folang.Props.C08R", "Folang.Props.C08Term"])
     if ctx.tier == "thorough":
-        ctx.leanchecker(["Folang.Props.C08", "Folang.Props.C08Facts", "Folang.Props.C08Tok"])
+        ctx.leanchecker(["Folang.Props.C08", "Folang.Props.C08Facts", "Folang.Props.C08Tok", "Folang.Props.C08R", "Folang.Props.C08Term"])
     if ctx.tier == "quick":
         cmds = ["%d 2000 3" % ctx.seed]
     else:
